@@ -16,7 +16,7 @@ theorem hostAtt_bump (l : List HostM) (h lat h' : Nat) :
         simp [bumpHost, hostAtt, hx, e, e']
     · by_cases e : x.host = h'
       · have : ¬ h' = h := by intro g; exact hx (by rw [e, g])
-        simp [bumpHost, hostAtt, hx, e, this]
+        simp [bumpHost, hostAtt, e, this]
       · simp [bumpHost, hostAtt, hx, e, ih]
 
 theorem hostTot_bump (l : List HostM) (h lat h' : Nat) :
@@ -31,7 +31,7 @@ theorem hostTot_bump (l : List HostM) (h lat h' : Nat) :
         simp [bumpHost, hostTot, hx, e, e']
     · by_cases e : x.host = h'
       · have : ¬ h' = h := by intro g; exact hx (by rw [e, g])
-        simp [bumpHost, hostTot, hx, e, this]
+        simp [bumpHost, hostTot, e, this]
       · simp [bumpHost, hostTot, hx, e, ih]
 
 theorem sumAtt_bump (l : List HostM) (h lat : Nat) :
